@@ -1,7 +1,7 @@
 ------------------------------ MODULE InstLaws ------------------------------
 (* TLC checks the C08 / C13 laws of the instantiation oracle on the instantiation-shape universe. *)
 EXTENDS IfaceExh
-CapsTable == [s \in {"double", "Pose3", "B", "C", "BC", "3", "size_t", "T", "U", "V", "M"} |->
+CapsTable == [s \in {"double", "Pose3", "B", "C", "D", "CD", "BC", "BCD", "3", "size_t", "T", "U", "V", "M"} |->
                 CASE s = "double" -> "Double" [] s = "size_t" -> "Size_t" [] OTHER -> s]
 INSTANCE Variants WITH Caps <- CapsTable, Mode <- "spec"
 Classes == { ClassN("Foo", tm, FALSE, FALSE, NoType, FooMembers(tm)) : tm \in InstTmpls }
